@@ -3,7 +3,8 @@ transparency: the routing scenarios of the core family replayed over rawsocket /
 import json, os, re, random
 from vlib import *  # noqa
 
-TRANSPORTS = ["rs-json", "rs-msgpack", "rs-cbor", "ws-json", "ws-msgpack", "ws-cbor"]
+# (wsk = websocket with the router side's keep-alive on: pings every 30 s of virtual time, another send loop)
+TRANSPORTS = ["rs-json", "rs-msgpack", "rs-cbor", "ws-json", "ws-msgpack", "ws-cbor", "wsk-json", "wsk-msgpack", "wsk-cbor"]
 
 
 def over_transports(scns, seed):
@@ -112,7 +113,9 @@ def race_scenarios(work, prop, tier, seed):
     return out
 
 
-INTERCHANGE = [("pubsub", "", 16), ("rpc", "", 18), ("meta", "", 16), ("hist", "hist", 16), ("cancel", "", 16), ("tst", "", 14), ("disc", "disc", 14)]
+INTERCHANGE = [("pubsub", "", 16), ("rpc", "", 18), ("meta", "", 16), ("hist", "hist", 16), ("cancel", "", 16), ("tst", "", 14), ("disc", "disc", 14),
+               # in-process publishers hand over payloads that cannot be serialised: dropped whole for network receivers only
+               ("pubsub", "unser", 16)]
 
 
 def exec_wire(work, binary, wscn):
